@@ -3,7 +3,7 @@
    amplitudes of both signs; then every sampling instant. *)
 EXTENDS DacSampler
 CONSTANTS MaxBits, SpsVals, Vouts, Biases
-VoutSet == {-3, 1, 2}
+VoutSet == {-3, 0, 1, 2}
 BiasSet == {-1, 0, 2}
 VARIABLES bits, sps, shape, vout, bias, wave, k, rx
 vars == <<bits, sps, shape, vout, bias, wave, k, rx>>
@@ -18,6 +18,6 @@ Spec == Init /\ [][Next]_vars
 LenExact == wave # <<>> => Len(wave) = Len(bits) * sps
 SlotExact == wave # <<>> => \A s \in 1..Len(bits) : \A j \in 1..sps :
    wave[(s - 1) * sps + j] = (IF shape = "nrz" \/ j <= sps \div 2 THEN bias + vout * bits[s] ELSE bias)
-SamplerInverts == (k # -1 /\ InsidePulse(shape, sps, k)) => rx = bits
+SamplerInverts == (k # -1 /\ vout # 0 /\ InsidePulse(shape, sps, k)) => rx = bits
 SamplerLength == k # -1 => Len(rx) = Len(bits)
 =============================================================================
